@@ -456,7 +456,7 @@ TUS.append(tu('h_c10_sf2', ['transpose_n', 'reshape_ct', 'sum_ct', 'tile_ct', 'a
               defs=['-DC10_REPORT_KIND', '-DC10_NO_INTO'], tiers=('thorough',)))
 ADL = dict(name='h_c10_adl', src='h_c10adl.cpp', flavour='san')
 
-import os
+import os, random
 if os.environ.get('C10_ONLY'):      # development aid: restrict the run to some harness TUs
     TUS = [t for t in TUS if t['name'] in os.environ['C10_ONLY'].split(',')]
 
@@ -477,6 +477,8 @@ def harness_specs(tier):
         specs.append(dict(ADL))
     if not os.environ.get('C10_ONLY') or 'h_c10s' in os.environ['C10_ONLY']:
         specs.append(dict(name='h_c10s', src='h_c10s.cpp', flavour='fast'))      # number-typed views into supplied scalar outputs
+    if not os.environ.get('C10_ONLY') or 'h_c08e' in os.environ['C10_ONLY']:
+        specs.append(dict(name='h_c08e', src='h_c08e.cpp', flavour='fast'))      # (C08's TU) accumulate / reduce with a wider result dtype: view vs eval
     return specs
 
 
@@ -688,9 +690,28 @@ def intonum_cases(tier, rng):
                                    nontrivial=True, tags=['intonum', 'fn=' + fn, 'mode=' + mode, 'sentinel=' + ('zero' if sent == 0 else 'non-zero')])
 
 
+def dtype_eval_cases(tier, rng):
+    """cumsum / cumprod / sum / prod of narrow element types with a WIDER result dtype, lazily (view read element by element) and
+    eagerly (array::fn = eval): the evaluated array must hold the view's elements, so its buffer has to be of the requested dtype
+    (seeded change C10-3: the element type of the result buffer was taken from the operand).  Both forms of every request."""
+    if os.environ.get('C10_ONLY') and 'h_c08e' not in os.environ['C10_ONLY']:
+        return
+    import importlib
+    c08 = importlib.import_module('props.c08')
+    seen = set()
+    for c in c08.gen_narrow(tier, random.Random(rng.random())):
+        for api in ('view', 'array'):
+            req = ' '.join(('api=' + api) if f.startswith('api=') else f for f in c.req.split(' '))
+            if req in seen:
+                continue
+            seen.add(req)
+            yield Case(req, 'h_c08e', oracle=c.oracle, model=False, nontrivial=True, tags=['dtype-eval', 'api=' + api])
+
+
 def gen(tier, rng):
     yield from nothing_cases(tier)
     yield from intonum_cases(tier, rng)
+    yield from dtype_eval_cases(tier, rng)
     yield from adl_cases()
     yield from intofn_cases(tier, rng)
     for t in TUS:
